@@ -173,6 +173,9 @@ def _index_mut_range(ex, st, args, dest_ty, func, where):
             continue
         break
     s, rg = inner, args[1]
+    if isinstance(s, VStruct) and s.name == "[array]":
+        from .symexec import array_to_seq
+        s = array_to_seq(s)
     if not (isinstance(ref, VRef) and ref.kind == "place" and isinstance(s, VSeq)):
         raise Unsupported("index_mut on %r" % (inner,))
     if rg.name == "Range":
@@ -368,6 +371,7 @@ def install(ex):
     A(r"^std::io::copy::<", _io_copy, "std::io::copy between in-memory reader and writer")
     A(r"^<std::io::Error as From<.*>>::from$|^<std::io::Error as Into<.*>>::into$|^std::io::Error::new::<", _opaque_err, "io::Error constructors (opaque)")
     A(r"^Vec::<\w+>::as_slice$", _as_slice, "Vec::as_slice")
+    A(r"^<\[u8; \d+\] as (std::ops::)?IndexMut<(std::ops::)?Range\w*<usize>>>::index_mut$", _index_mut_range, "<[u8; N] as IndexMut<Range*>>::index_mut (mutable view)")
     A(r"^<Vec<u8> as (std::ops::)?IndexMut<(std::ops::)?Range\w*<usize>>>::index_mut$", _index_mut_range, "<Vec<u8> as IndexMut<Range*>>::index_mut (mutable view)")
     A(r"^(std|alloc)::vec::from_elem::<u8>$", _from_elem, "vec![x; n]")
     A(r"^blake3::Hasher::new$", _hasher_new, "blake3::Hasher::new (ideal hash)")
